@@ -10,6 +10,7 @@ use std::collections::HashMap;
 
 pub struct GlobalConstantPropagator {
     constants: HashMap<String, aelys_sema::TypedExpr>,
+    binders: super::binders::BinderCounts,
     stats: OptimizationStats,
 }
 
@@ -17,6 +18,7 @@ impl GlobalConstantPropagator {
     pub fn new() -> Self {
         Self {
             constants: HashMap::new(),
+            binders: HashMap::new(),
             stats: OptimizationStats::new(),
         }
     }
@@ -37,6 +39,9 @@ impl OptimizationPass for GlobalConstantPropagator {
         self.constants.clear();
         self.stats = OptimizationStats::new();
 
+        // substitution is by name with no notion of scope: a name shadowed or rebound
+        // anywhere (parameter, local, loop variable, second top-level let) is not a constant
+        self.binders = super::binders::count_binders(&program.stmts);
         self.collect_global_constants(&program.stmts);
         for stmt in &mut program.stmts {
             self.substitute_in_stmt(stmt);
